@@ -313,6 +313,19 @@ func reportViolation(prop, class string, r *runResult, bin, workDir, repoKey str
 			rec.Plan = res.Plan
 		}
 	}
+	if class == "race" {
+		// A race report comes from the pass-through (-race) auxiliary: real parallelism, not replayable by
+		// construction. The file carries the plan, the seed and the detector's report; --replay re-runs
+		// the plan a number of times under the race detector.
+		rec.Signature = class
+		for _, vv := range r.Viol {
+			if vv.Class == class {
+				rec.Detail = vv.Detail
+			}
+		}
+		rec.Tape = nil
+		return writeReplay(prop, class, r.Seed, rec)
+	}
 	final := rec
 	// the recorded run must reproduce in a fresh process
 	first := tryReplay(bin, rec, workDir, tier)
@@ -342,9 +355,13 @@ func reportViolation(prop, class string, r *runResult, bin, workDir, repoKey str
 	if first.Tape != nil {
 		final.Tape = first.Tape
 	}
+	return writeReplay(prop, class, r.Seed, final)
+}
+
+func writeReplay(prop, class string, seed uint64, final *replayRec) string {
 	dir := filepath.Join(verifDir, "replays", prop)
 	os.MkdirAll(dir, 0o755)
-	name := fmt.Sprintf("%016x-%s.json", r.Seed, strings.Map(func(c rune) rune {
+	name := fmt.Sprintf("%016x-%s.json", seed, strings.Map(func(c rune) rune {
 		if c >= 'a' && c <= 'z' || c >= '0' && c <= '9' || c == '.' || c == '_' {
 			return c
 		}
@@ -371,6 +388,24 @@ func doReplay(prop, path string) int {
 	bin, repoKey := ensureWorker(false)
 	workDir, _ := os.MkdirTemp("", "verif-replay-")
 	defer os.RemoveAll(workDir)
+	if rec.Signature == "race" {
+		rbin, _ := ensureWorker(true)
+		rec.Tape = nil
+		for try := 0; try < 40; try++ {
+			j := &job{Property: rec.Property, Scenario: rec.Scenario, Replay: &rec, Tier: "thorough", Params: rec.Params}
+			bo := runWorker(rbin, j, workDir, 300*time.Second, true)
+			if bo.crash != nil {
+				if v, ok := crashViolation(bo); ok {
+					fmt.Printf("VIOLATION property=%s replay=%s\n  class=%s seed=%d (attempt %d)\n  %s\n", prop, path, v.Class, rec.Seed, try+1, strings.ReplaceAll(v.Detail, "\n", "\n  "))
+					return 1
+				}
+				fmt.Println("INFRA: worker crashed:", tail(bo.stderr, 2000))
+				return 2
+			}
+		}
+		fmt.Printf("replay of %s: the race detector reported nothing in 40 attempts on this tree (%s)\n", path, repoKey)
+		return 0
+	}
 	want := rec.Signature
 	wantHash := rec.LogHash
 	rec.Signature, rec.Detail, rec.LogHash, rec.Trace, rec.History = "", "", "", nil, nil
